@@ -1108,7 +1108,7 @@ def _find_inner_head(vc, v, entering):
 LOOPS.update(
     {
         ("someip.header._find", 0): {"havoc": {"i": _gen_int}, "inv": _find_outer_inv, "variant": _find_outer_variant},
-        ("someip.header._find", 1): {"inv": _find_inner_inv, "head": _find_inner_head},
+        ("someip.header._find", 1): {"inv": _find_inner_inv, "head": _find_inner_head, "keep": ["i"]},
     }
 )
 
